@@ -28,15 +28,17 @@ const uA, uB = 1000, 2000
 func feedMenu() [][]gocbcore.SimPersist {
 	tmp := &gocbcore.KeyValueError{InnerError: gocbcore.ErrTemporaryFailure, StatusCode: memd.StatusTmpFail}
 	busy := &gocbcore.KeyValueError{InnerError: gocbcore.ErrBusy, StatusCode: memd.StatusBusy}
-	st := func(u, p uint64) gocbcore.SimPersist { return gocbcore.SimPersist{VbUUID: gocbcore.VbUUID(u), Persist: gocbcore.SeqNo(p), Current: 3} }
+	st := func(u, p uint64) gocbcore.SimPersist {
+		return gocbcore.SimPersist{VbUUID: gocbcore.VbUUID(u), Persist: gocbcore.SeqNo(p), Current: 3}
+	}
 	return [][]gocbcore.SimPersist{
-		{st(uA, 1), st(uA, 2), st(uA, 3)},       // advance step by step
-		{st(uA, 3)},                             // everything persisted at once
-		{st(uA, 1), st(uA, 1), st(uA, 3)},       // repeats
-		{st(uA, 2), st(uB, 1), st(uB, 3)},       // branch change with a lower seqno
-		{st(uA, 1), st(uB, 3)},                  // branch change with a higher seqno
+		{st(uA, 1), st(uA, 2), st(uA, 3)},               // advance step by step
+		{st(uA, 3)},                                     // everything persisted at once
+		{st(uA, 1), st(uA, 1), st(uA, 3)},               // repeats
+		{st(uA, 2), st(uB, 1), st(uB, 3)},               // branch change with a lower seqno
+		{st(uA, 1), st(uB, 3)},                          // branch change with a higher seqno
 		{{Err: tmp}, st(uA, 2), {Err: busy}, st(uA, 3)}, // transient observe errors
-		{st(uA, 0), st(uA, 2)},                  // nothing persisted at first, never reaches 3
+		{st(uA, 0), st(uA, 2)},                          // nothing persisted at first, never reaches 3
 	}
 }
 
